@@ -949,9 +949,11 @@ Proof.
   - intros s g t _ T. apply scope_enter_tinv; [apply (gi_gscope _ (proj1 T))|exact T].
   - intros s t _ T. apply scope_enter_tinv; [apply (gi_hscope _ (proj1 T))|exact T].
   - intros s c t exc. apply scope_exit_tinv.
-  - intros s c. apply scope_cancel_tinv.
+  - intros s c _. apply scope_cancel_tinv.
+  - intros s g. apply scope_cancel_tinv.
+  - intros s t. apply scope_cancel_tinv.
   - intros s c d _. apply set_deadline_tinv.
-  - intros s c Hc. now apply add_group_tinv.
+  - intros s T. apply add_group_tinv; [cbn; lia|now apply new_scope_tinv].
   - intros s g sf. apply spawn_tinv.
   - intros s t f w. apply sleep_arm_tinv.
   - intros s t f. apply sleep0_tinv.
